@@ -6,4 +6,5 @@ cd /repo && git apply "$d/patch.diff" || { echo "patch does not apply"; exit 3; 
 cd /verif && ./check "$prop" "$tier" | tail -4 | cut -c1-600
 rc=$?
 cd /repo && git checkout -- . 
+cd /verif && PYTHONPATH=/repo /venv/bin/python -B tools/extract.py >/dev/null 2>&1
 echo "[$d] property=$prop"
